@@ -21,6 +21,7 @@ def parseWriter (s : String) : Option (List WriteEv) :=
   else (toks s).mapM fun t =>
     if t == "ok" then some .ok
     else if t == "fail" then some .fail
+    else if t == "full" then some (.short 1000000000)   -- all bytes written, an error returned all the same
     else if t.startsWith "short:" then (dropS t 6).toNat?.map .short
     else none
 
